@@ -47,6 +47,7 @@ Theorem spec_reads_impl_frames : forall pool min rmax (msgs : list M) tf td,
     = Some (map (written M marshal compress pool min) msgs ++ [(tf, td)]) /\
   forallb (data_frame_ok pool) (map (written M marshal compress pool min) msgs) = true.
 Proof. exact (spec_reads_impl_frames_lemma M marshal compress). Qed.
+Print Assumptions spec_reads_impl_frames.
 
 (* conversely: whatever per-message compression choice a conformant peer makes,
    the implementation's reader yields the messages the peer encoded *)
@@ -59,6 +60,7 @@ Proof.
   exact (impl_reads_spec_frames_lemma M marshal unmarshal_into compress decompress zero
            codec_roundtrip empty_is_zero compress_roundtrip compress_nonempty).
 Qed.
+Print Assumptions impl_reads_spec_frames.
 End C05.
 Print Assumptions spec_reads_impl_frames.
 Print Assumptions impl_reads_spec_frames.
